@@ -462,6 +462,25 @@ fn it_svm_variants(d: &Data) -> Sections {
         }
         Err(e) => out.push(sec("multi_class_error", e.into_bytes())),
     }
+    // the same with the labels dealt differently over the (few distinct) lattice rows: member models
+    // trained on near-symmetric problems give equal f32 probabilities for some rows
+    for v in 1..5usize {
+        let n = d.lat_y.len();
+        let yv = Array1::from_shape_fn(n, |i| d.lat_y[(i * (2 * v + 1) + v) % n]);
+        let dv = Dataset::new(d.lat.clone(), yv);
+        let fitted: Result<Vec<(usize, Svm<f64, Pr>)>, String> = dv
+            .one_vs_all()
+            .map_err(|e| format!("{:?}", e))
+            .and_then(|m| m.into_iter().map(|(l, x)| Svm::<f64, Pr>::params().pos_neg_weights(1.0, 1.0).gaussian_kernel(2.0).fit(&x).map(|m| (l, m)).map_err(|e| format!("{:?}", e))).collect());
+        match fitted {
+            Ok(members) => {
+                let w: MultiClassModel<Array2<f64>, usize> = members.into_iter().collect();
+                out.push(sec(&format!("multi_class_variant_{}_predict_train", v), usizes(w.predict(&d.lat).iter())));
+                out.push(sec(&format!("multi_class_variant_{}_predict_query", v), usizes(w.predict(&d.qlat).iter())));
+            }
+            Err(e) => out.push(sec(&format!("multi_class_variant_{}_error", v), e.into_bytes())),
+        }
+    }
     // three classes on a line, classes 0 and 1 mirror images of each other, queries on the axis of
     // symmetry: if the two member models score equally, the label must still not depend on the
     // order `one_vs_all` hands the labels out in
